@@ -558,7 +558,8 @@ def run_exact(ctx, cases, flow, built, tag):
             ctx.impl_fail(rv[0], rv[1], {"kind": "exact-scene", "case": case})
         if case["fault"] is None and obs[0]["out"] == 0 and len(obs) > 1 and obs[1]["out"] == 0 \
                 and case["tab"] == ["ok"] * len(case["tab"]):
-            same = _same_value(vals[0], vals[1])
+            same = _same_value(vals[0], vals[1], case["observers"]["kind"] == "list" and
+                               all("sens" in e or "coll" in e for e in case["observers"]["entries"]))
             if not same:
                 ctx.impl_fail("identical-result/exact-scene", "second identical call returned a different value",
                               {"kind": "exact-scene", "case": case})
@@ -587,13 +588,13 @@ def run_exact(ctx, cases, flow, built, tag):
                        json.dumps({"case": small, "observed": o2, "model": model_predict(ctx, small, o2, f2)})[:3800])
 
 
-def _same_value(a, b):
+def _same_value(a, b, sensor_labels=False):
     if a is None or b is None:
         return a is b
     if hasattr(a, "equals"):      # DataFrame: the label of a temporary Sensor made from an array contains its id()
         if not hasattr(b, "equals") or list(a.columns) != list(b.columns) or len(a) != len(b):
             return False
-        cols = [c for c in a.columns if c != "sensor"]
+        cols = [c for c in a.columns if c != "sensor" or sensor_labels]
         return bool(a[cols].equals(b[cols]))
     a, b = np.asarray(a), np.asarray(b)
     return a.shape == b.shape and a.dtype == b.dtype and a.tobytes() == b.tobytes()
@@ -679,7 +680,7 @@ def g_real(rng):
     cls = rng.choice(REAL)
     pos, rv = g_pose(rng)
     d = {"cls": cls, "pos": pos, "rotvec": rv, "missing": rng.choices([None, "dim", "exc"], [94, 3, 3])[0]}
-    if rng.random() < 0.3:
+    if rng.random() < 0.5:
         d["style"] = {"label": "obj%d" % rng.randrange(9), "color": rng.choice(["red", "blue"])}
     if cls == "Custom":
         d["mode"] = rng.choices(CUSTOM_MODES, [40, 12, 10, 10, 8, 8, 6, 6])[0]
@@ -726,7 +727,10 @@ def mk_real(d, scale=1.0):
     kw = {"position": (np.array(d["pos"], dtype=float) * L).tolist(),
           "orientation": R.from_rotvec(np.array(d["rotvec"], dtype=float))}
     if d.get("style"):
-        kw["style"] = dict(d["style"])
+        if d.get("geo", 0) % 2:          # the two ways to give a style at construction; both stay lazy
+            kw.update({"style_" + k: v for k, v in d["style"].items()})
+        else:
+            kw["style"] = dict(d["style"])
     dim, exc = d.get("missing") != "dim", d.get("missing") != "exc"
     g, e = d.get("geo", 0), d.get("exc", 0)
     pol = _pick(POLS, e) if exc else None
@@ -780,7 +784,7 @@ def g_sens_real(rng, shape):
     if shape is not None:
         px = np.round(np.array([rng.uniform(-1, 1) for _ in range(int(np.prod(shape)))]).reshape(shape), 3).tolist()
     d = {"cls": "Sensor", "pos": pos, "rotvec": rv, "pixel": px, "hand": rng.choice(["right", "right", "left"])}
-    if rng.random() < 0.3:
+    if rng.random() < 0.5:
         d["style"] = {"label": "s%d" % rng.randrange(9)}
     return d
 
@@ -846,7 +850,7 @@ def _g_scene(rng):
             "pixel_agg": rng.choices([None, "mean", "min", "std", "var", "ptp", "max", "median", "bogus", "argmax", 5, "ndim",
                                       "nonreducing"],
                                      [50, 8, 4, 4, 3, 3, 3, 2, 4, 6, 2, 2, 9])[0],
-            "output": rng.choices(["ndarray", "dataframe", "bogus"], [80, 10, 10])[0],
+            "output": rng.choices(["ndarray", "dataframe", "bogus"], [65, 27, 8])[0],
             "in_out": rng.choice(["auto", "auto", "inside", "outside", "bogus"]),
             "kwargs": rng.random() < 0.03,
             "scale": rng.choice([1, 1, 1, 1e-3, 1e-6, 1e3])}
@@ -870,7 +874,7 @@ def _canon(v):
 
 # attributes that a field call may legitimately fill: none. (TriangularMesh's _status_* caches are only
 # computed by the check_* / reorient_faces methods; getB just warns about an unchecked mesh.)
-ALLOWED_LAZY = ()
+ALLOWED_LAZY = ("_style", "_style_kwargs")     # compared through effective_style()
 
 
 def _canon_deep(v, ids, seen, depth=0):
@@ -910,16 +914,31 @@ def deep_snapshot(allobjs):
     ids = {id(o): i for i, o in enumerate(allobjs)}
     snap = []
     for o in allobjs:
-        _ = o.style
         d = {"position": _canon(np.array(o._position)), "orientation": _canon(np.array(o._orientation.as_quat())),
              "npos": len(o._position), "nori": len(o._orientation)}
-        d["dictkeys"] = tuple(sorted(o.__dict__.keys()))
+        d["dictkeys"] = tuple(sorted(k for k in o.__dict__.keys() if k != "_style"))
+        d["style"] = effective_style(o)
         for k, v in sorted(vars(o).items()):
             if k in ("_position", "_orientation") or k in ALLOWED_LAZY:
                 continue        # paths: compared above (the arrays are replaced by equal ones)
             d["private " + k] = _canon_deep(v, ids, frozenset({id(o)}))
         snap.append(d)
     return snap
+
+
+def effective_style(o):
+    """the style the object HAS, computed without touching it: the style object (if it exists) updated with the
+    pending constructor arguments.  `_style` / `_style_kwargs` are the one documented on-demand pair (a style is
+    created at the first access, e.g. for the labels of a dataframe); what must not change is their combination."""
+    try:
+        st = getattr(o, "_style", None)
+        st = st.copy() if st is not None else o._style_class()
+        kw = copy.deepcopy(getattr(o, "_style_kwargs", None) or {})
+        if kw:
+            st.update(kw)
+        return json.dumps(st.as_dict(), sort_keys=True, default=str)
+    except Exception as e:  # pylint: disable=broad-except
+        return "invalid pending style arguments: " + type(e).__name__
 
 
 def snap_diff(a, b, allobjs):
@@ -953,9 +972,10 @@ def assemble(sc, objs):
     L = float(sc.get("scale", 1))
     colls = []
     for c in sc["colls"]:
-        col = magpy.Collection(*[objs[k] for k in c["kids"]])
+        lab = {"style_label": "coll%d" % len(colls)} if len(c["kids"]) % 2 else {}
+        col = magpy.Collection(*[objs[k] for k in c["kids"]], **lab)
         for _ in range(int(c["nest"])):
-            col = magpy.Collection(col)
+            col = magpy.Collection(col, **lab)
         colls.append(col)
     allobjs = objs[:]
     for c in colls:
@@ -1067,7 +1087,13 @@ def check_scene(sc):
     elif e1 is not None and _msg(e1) != _msg(e2):
         out.append((f"identical-result/message:{_ename(e1)}", f"first call: {_msg(e1)[:90]!r}, identical second call: "
                     f"{_msg(e2)[:90]!r}"))
-    elif e1 is None and not _same_value(v1, v2):
+    elif e1 is None and hasattr(v1, "select_dtypes") and hasattr(v2, "select_dtypes") and \
+            _same_value(v1.select_dtypes("number"), v2.select_dtypes("number")) and \
+            not _same_value(v1, v2, "sens" in sc["observers"]):
+        out.append(("identical-result/dataframe-labels", "the second identical call returned a DataFrame with different "
+                    f"source/sensor labels: {sorted(set(v1['source']) | set(v1['sensor']))[:4]} -> "
+                    f"{sorted(set(v2['source']) | set(v2['sensor']))[:4]}"))
+    elif e1 is None and not _same_value(v1, v2, "sens" in sc["observers"]):
         bits = d is not None and d[0] == "orientation-bits"
         if hasattr(v1, "select_dtypes"):
             v1, v2 = v1.select_dtypes("number").to_numpy(), v2.select_dtypes("number").to_numpy()
@@ -1193,6 +1219,39 @@ def check_smallest(ctx):
         for sig, text in res:
             ctx.impl_fail(sig + ":smallest", text + f" [{sc['objs'][0]['cls']} alone, one observer point, "
                           f"entry {sc['entry']}]", {"kind": "scene", "scene": sc})
+
+
+# ---------------------------------------------------------------------- invalid style arguments given at construction
+def check_invalid_init_style(ctx):
+    """objects built with an INVALID style argument (accepted lazily by the constructors): the dataframe output reads the
+    labels, which creates the styles; the failing call must leave the objects as they were and fail again"""
+    makers = {
+        "source:unknown-key": lambda: (magpy.magnet.Cuboid(dimension=(1, 1, 1), polarization=(0, 0, 1), style_bogus=3),
+                                       magpy.Sensor()),
+        "source:bad-value-with-valid-label": lambda: (magpy.magnet.Cuboid(dimension=(1, 1, 1), polarization=(0, 0, 1),
+                                                                          style={"label": "L", "color": 12345}), magpy.Sensor()),
+        "sensor:bad-value-with-valid-label": lambda: (magpy.misc.Dipole(moment=(0, 0, 1)),
+                                                      magpy.Sensor(style_label="S", style_opacity=7)),
+    }
+    for name, mk in makers.items():
+        for field in "BH":
+            src, sens = mk()
+            before = deep_snapshot([src, sens])
+            outs = []
+            for _ in range(3):
+                try:
+                    getattr(magpy, "get" + field)(src, sens, output="dataframe")
+                    outs.append("returns")
+                except Exception as e:  # pylint: disable=broad-except
+                    outs.append(type(e).__name__)
+            d = snap_diff(before, deep_snapshot([src, sens]), [src, sens])
+            ctx.case(("invalid-init-style", name, field), True)
+            ctx.bump("invalid-init-style:" + "/".join(outs))
+            if len(set(outs)) > 1 or d is not None:
+                ctx.impl_fail("identical-result/invalid-init-style-kwargs",
+                              f"object built with invalid style arguments ({name}): three identical get{field}(..., "
+                              f"output='dataframe') calls end {outs}; object change: {d[1] if d else 'none'}",
+                              {"kind": "invalid-init-style", "name": name, "field": field})
 
 
 # ---------------------------------------------------------------------- histories: call -> public change -> call vs fresh twin
@@ -1634,6 +1693,7 @@ def run(ctx):
     big = bool(ctx.broken)
     run_guarded(ctx, lambda: search_scenes(ctx, ctx.n(500, 6000) * (3 if big else 1)), "C08 scene search")
     run_guarded(ctx, lambda: check_smallest(ctx), "C08 smallest cases")
+    run_guarded(ctx, lambda: check_invalid_init_style(ctx), "C08 invalid init style")
     run_guarded(ctx, lambda: search_histories(ctx, ctx.n(300, 4000) * (2 if big else 1)), "C08 history search")
     run_guarded(ctx, lambda: check_dict_iface(ctx, ctx.n(120, 1500)), "C08 functional interface arrays")
     run_guarded(ctx, lambda: check_object_arrays(ctx), "C08 object arrays")
